@@ -17,6 +17,7 @@ package gossip
 //@   ensures[known-kept] forall id string :: old(id in s.nodes) ==> id in s.nodes && s.nodes[id] == old(s.nodes[id])
 //@   ensures[left-not-learned] forall id string :: id in s.nodes && !old(id in s.nodes) ==> (exists j int :: 0 <= j && j < len(digest) && digest[j].ID == id && !digest[j].Left && blankNode(s.nodes[id], id, digest[j].Addr))
 //@   ensures[discovered] forall j int :: 0 <= j && j < len(digest) && !digest[j].Left ==> digest[j].ID in s.nodes
+//@   ensures[no-resurrect] gForgotten && !old(gNode() in s.nodes) ==> !(gNode() in s.nodes)
 //@   loop 1 frame entries(s.nodes)
 //@   loop 1 invariant[range] rangeindex < len(digest)
 //@   loop 1 invariant[inv] csInv(s) && wInv(s)
@@ -108,8 +109,13 @@ package gossip
 
 //@ pure expired(s *clusterState, id string, t time.Time) bool = !s.nodes[id].Expiry.IsZero() && t.After(s.nodes[id].Expiry)
 
+// gForgotten: the node gNode() was forgotten by the expiry sweep while it was
+// merely unreachable (it never announced that it left).
+//@ ghost gForgotten bool
+
 //@ contract (*clusterState).RemoveExpiredAt
 //@   serves C11 C14 C20
+//@   ghost-set gForgotten = old(gForgotten) || (old(gNode() in s.nodes) && old(expired(s, gNode(), t)) && old(s.nodes[gNode()].Unreachable) && !old(s.nodes[gNode()].Left))
 //@   modifies entries(s.nodes)
 //@   ensures[after-expiry] forall id string :: old(id in s.nodes) && old(expired(s, id, t)) ==> !(id in s.nodes)
 //@   ensures[not-before-expiry] forall id string :: old(id in s.nodes) && !old(expired(s, id, t)) ==> id in s.nodes && s.nodes[id] == old(s.nodes[id])
